@@ -206,6 +206,8 @@ enum Status {
     BlockedBarrier,
     /// Waiting until every other model thread has finished.
     BlockedAll,
+    /// Waiting for a model-level reader-writer lock.
+    BlockedLock(usize),
     Finished,
 }
 
@@ -287,6 +289,13 @@ struct Loc {
     addr: usize,
 }
 
+#[derive(Default)]
+struct LockState {
+    readers: u32,
+    writer: bool,
+    rel: VV,
+}
+
 struct RaceCell {
     w_t: u8,
     w_c: u32,
@@ -309,6 +318,7 @@ struct St {
     threads: Vec<Th>,
     locs: Vec<Loc>,
     cells: Vec<RaceCell>,
+    locks: Vec<LockState>,
     scv: View,
     p_left: u32,
     s_left: u32,
@@ -368,6 +378,7 @@ fn g() -> &'static Global {
             threads: (0..MAXT).map(|_| Th::new()).collect(),
             locs: Vec::new(),
             cells: Vec::new(),
+            locks: Vec::new(),
             scv: View::default(),
             p_left: 0,
             s_left: 0,
@@ -1037,6 +1048,78 @@ pub(crate) fn cell_access(me: usize, meta: &CoreU64, write: bool, what: &str) {
 }
 
 // ------------------------------------------------------------------------------------------
+// Model-level reader-writer lock (sync::RwLock)
+
+fn lock_id(st: &mut St, meta: &CoreU64) -> usize {
+    let m = meta.load(Ordering::Relaxed);
+    if (m >> 32) as u32 == st.epoch && (m & 0xffff_ffff) != 0 {
+        (m & 0xffff_ffff) as usize - 1
+    } else {
+        let id = st.locks.len();
+        st.locks.push(LockState::default());
+        meta.store(((st.epoch as u64) << 32) | (id as u64 + 1), Ordering::Relaxed);
+        id
+    }
+}
+
+pub(crate) fn lock_acquire(me: usize, meta: &CoreU64, write: bool) {
+    loop {
+        sched_point(me);
+        let ok = with(|st| {
+            let id = lock_id(st, meta);
+            let free = if write { !st.locks[id].writer && st.locks[id].readers == 0 } else { !st.locks[id].writer };
+            if free || st.drain && false {
+                if write {
+                    st.locks[id].writer = true;
+                } else {
+                    st.locks[id].readers += 1;
+                }
+                let rel = st.locks[id].rel.clone();
+                st.threads[me].vc.join(&rel.vc);
+                st.threads[me].view.join(&rel.view);
+                if st.cfg.trace {
+                    st.trace.push(format!("t{} lock#{} {}", me, id, if write { "write-locked" } else { "read-locked" }));
+                }
+                true
+            } else {
+                st.threads[me].status = Status::BlockedLock(id);
+                if st.cfg.trace {
+                    st.trace.push(format!("t{} waits for lock#{}", me, id));
+                }
+                false
+            }
+        });
+        if ok {
+            return;
+        }
+        block_and_yield(me);
+    }
+}
+
+pub(crate) fn lock_release(me: usize, meta: &CoreU64, write: bool) {
+    sched_point(me);
+    with(|st| {
+        let id = lock_id(st, meta);
+        if write {
+            st.locks[id].writer = false;
+        } else {
+            st.locks[id].readers = st.locks[id].readers.saturating_sub(1);
+        }
+        let vv = st.release_vv(me);
+        st.locks[id].rel.join(&vv);
+        st.threads[me].vc.0[me] += 1;
+        for t in 0..st.nthreads {
+            if st.threads[t].status == Status::BlockedLock(id) {
+                st.threads[t].status = Status::Runnable;
+            }
+        }
+        if st.cfg.trace {
+            st.trace.push(format!("t{} lock#{} released", me, id));
+        }
+    });
+}
+
+// ------------------------------------------------------------------------------------------
 // Thread-local storage
 
 pub(crate) enum TlsLookup {
@@ -1638,6 +1721,7 @@ fn run_one(cfg: &Config, prefix: &[CP], body: &StdArc<dyn Fn() + Send + Sync>) -
         st.threads[0].vc.0[0] = 1;
         st.locs.clear();
         st.cells.clear();
+        st.locks.clear();
         st.scv = View::default();
         st.p_left = cfg.p;
         st.s_left = cfg.s;
